@@ -231,34 +231,106 @@ func (w *World) attrNameFiltered(s *Sink) (bool, string) {
 	// that control reaching the write from the loop header: the write's block must not be reachable
 	// when Contains is false and HasPrefix is false and filter != nil.
 	blk := s.Instr.Block()
-	reach := w.reachableAvoiding(fn, blk, func(from *ssa.BasicBlock, succIdx int) bool {
+	reach := w.reachableAvoiding(fn, blk, w.filterAllowedEdge(filter, 0))
+	if reach {
+		return false, "the write is reachable on a path where the filter rejected the name"
+	}
+	return true, "every path to the write passes filter==nil, filter.Contains(name) or HasPrefix(name,\"data-\")"
+}
+
+// filterAllowedEdge: the edges that justify writing an attribute name for the given filter value: filter == nil,
+// filter.Contains(name) true, HasPrefix(name, "data-") true, or the true edge of a module predicate that receives the
+// filter and answers true only through such edges (the test extracted into a helper).
+func (w *World) filterAllowedEdge(filter ssa.Value, depth int) func(from *ssa.BasicBlock, succIdx int) bool {
+	return func(from *ssa.BasicBlock, succIdx int) bool {
 		iff, ok := from.Instrs[len(from.Instrs)-1].(*ssa.If)
 		if !ok {
 			return false
 		}
 		for _, a := range condAtoms(iff.Cond, succIdx == 0) {
-			c, ok := a.V.(*ssa.Call)
-			if ok {
-				com := c.Common()
-				if com.IsInvoke() && com.Method.Name() == "Contains" && com.Value == ssa.Value(filter) && a.Truth {
-					return true // edge taken when Contains is true: allowed
-				}
-				if cal := com.StaticCallee(); cal != nil && cal.String() == "bytes.HasPrefix" && a.Truth {
-					if k, ok := w.constBytes(com.Args[1]); ok && k == "data-" {
-						return true
-					}
-				}
-			}
-			if x, isNil, ok := nilTest(a.V); ok && x == ssa.Value(filter) && isNil == a.Truth {
-				return true // filter == nil: render everything (documented)
+			if w.filterAtomAllows(a.V, a.Truth, filter, depth) {
+				return true
 			}
 		}
 		return false
-	})
-	if reach {
-		return false, "the write is reachable on a path where the filter rejected the name"
 	}
-	return true, "every path to the write passes filter==nil, filter.Contains(name) or HasPrefix(name,\"data-\")"
+}
+
+func (w *World) filterAtomAllows(v ssa.Value, truth bool, filter ssa.Value, depth int) bool {
+	if c, ok := v.(*ssa.Call); ok {
+		com := c.Common()
+		if com.IsInvoke() && com.Method.Name() == "Contains" && com.Value == filter && truth {
+			return true
+		}
+		if cal := com.StaticCallee(); cal != nil && cal.String() == "bytes.HasPrefix" && truth {
+			if k, ok := w.constBytes(com.Args[1]); ok && k == "data-" {
+				return true
+			}
+		}
+		if cal := com.StaticCallee(); cal != nil && truth && depth < 2 && w.InModule(cal) && cal.Blocks != nil {
+			for ai, arg := range com.Args {
+				if arg == filter && ai < len(cal.Params) && w.filterPredicateOK(cal, cal.Params[ai], depth+1) {
+					return true
+				}
+			}
+		}
+	}
+	if x, isNil, ok := nilTest(v); ok && x == filter && isNil == truth {
+		return true // filter == nil: render everything (documented)
+	}
+	return false
+}
+
+// filterPredicateOK: every way the bool function can answer true goes through an allowed edge (or is the allowed test
+// itself, returned as a value).
+func (w *World) filterPredicateOK(fn *ssa.Function, filter ssa.Value, depth int) bool {
+	if fn.Signature.Results().Len() != 1 || !isBool(fn.Signature.Results().At(0).Type()) {
+		return false
+	}
+	allowed := w.filterAllowedEdge(filter, depth)
+	for _, b := range fn.Blocks {
+		ret, ok := b.Instrs[len(b.Instrs)-1].(*ssa.Return)
+		if !ok {
+			continue
+		}
+		type src struct {
+			v    ssa.Value
+			from *ssa.BasicBlock
+		}
+		var srcs []src
+		if ph, ok := ret.Results[0].(*ssa.Phi); ok && ph.Block() == b {
+			for i, e := range ph.Edges {
+				srcs = append(srcs, src{e, b.Preds[i]})
+			}
+		} else {
+			srcs = []src{{ret.Results[0], b}}
+		}
+		for _, sc := range srcs {
+			if cb, isC := constBool(sc.v); isC {
+				if !cb {
+					continue
+				}
+				// the constant arrives along the edge sc.from -> b: fine if that very edge is an allowed one (the
+				// short-circuit "test was true" edge), otherwise the block it comes from must be guarded
+				edgeOK := false
+				if sc.from != b {
+					for si, sx := range sc.from.Succs {
+						if sx == b && len(sc.from.Succs) == 2 && allowed(sc.from, si) {
+							edgeOK = true
+						}
+					}
+				}
+				if !edgeOK && w.reachableAvoiding(fn, sc.from, allowed) {
+					return false
+				}
+				continue
+			}
+			if !w.filterAtomAllows(sc.v, true, filter, depth) {
+				return false
+			}
+		}
+	}
+	return true
 }
 
 // reachableAvoiding: is target reachable from the entry block using no "allowed" edge?
